@@ -35,6 +35,7 @@ type kase struct {
 	Allow     []netw `json:"allow"`
 	Deny      []netw `json:"deny"`
 	Malformed string `json:"malformed"`
+	MKind     string `json:"mkind"`
 	Peer      int    `json:"peer"`
 	XFF       string `json:"xff"`
 	XRI       string `json:"xri"`
@@ -144,11 +145,12 @@ func main() {
 		for _, d := range k.Deny {
 			cfg.AdminAPI.IPDenyList = append(cfg.AdminAPI.IPDenyList, network(listFam, d))
 		}
+		bad := map[string]string{"badip": "300.1.2.3/24", "blank": "", "space": "   ", "hostname": "admin.example.com", "cidr_oob": "10.0.0.0/33"}[k.MKind]
 		switch k.Malformed {
 		case "allow":
-			cfg.AdminAPI.IPAllowList = append(cfg.AdminAPI.IPAllowList, "300.1.2.3/24")
+			cfg.AdminAPI.IPAllowList = append(cfg.AdminAPI.IPAllowList, bad)
 		case "deny":
-			cfg.AdminAPI.IPDenyList = append(cfg.AdminAPI.IPDenyList, "300.1.2.3/24")
+			cfg.AdminAPI.IPDenyList = append(cfg.AdminAPI.IPDenyList, bad)
 		}
 		if k.Token {
 			cfg.AdminAPI.AuthToken = token
